@@ -8,40 +8,63 @@ import eqsig
 from eqsig import im
 
 from pbt import gen
-from pbt.core import clause, enum_clause, case_hash
+from pbt.core import clause, enum_clause
 
 PROPERTY = "C09"
 CLAUSES = []
 ASSUMPTIONS = [
-    "records are finite float64 (series / final-value also integer-dtype and list variants), 2 <= n <= 5000 "
-    "(cav-dp: up to 13000 samples), |a| <= 1e9, dt in [1e-4, 2]",
-    "series / final-value hand the time step over as a Python float, np.float64, np.float32 or a 0-d array of either precision; "
-    "a single-precision step is taken at its exact double value (the step the caller supplied), so the defining integrals "
-    "use float(np.float32(dt))",
-    "final-value repeats every check after the object's own in-place corrections (zero residual velocity, displacement "
-    "rebasing, rolling-average removal on the record and on the velocity); which records a correction accepts is not asserted",
-    "'v' in the statement is the object's velocity series (its correctness is C08); it is re-checked here against a "
-    "long-double cumulative trapezoid of the record so that the velocity-based measures stay anchored to the record",
+    "records are finite float64 (series / final-value / laws also int64-dtype, list, strided-view, negative-stride and read-only "
+    "variants; narrow integer dtypes and float32 records are handled centrally, not here), 2 <= n <= 5000 drawn by Hypothesis plus "
+    "60000..150000 (one case in 40), laddered lengths 2000..300000 (thorough 2 000 000) in the mid-range enumerations and "
+    "2^20..2^21 in giant-records; |a| <= 1e9, dt in [1e-4, 2]",
+    "series / final-value / laws / mid-range hand the time step over as a Python float, np.float64, np.float32 or a 0-d array of either "
+    "precision; a single-precision step is taken at its exact double value (the step the caller supplied), so the defining "
+    "integrals use float(np.float32(dt)); standardised CAV: Python float, np.float64 or 0-d float64 (a float32 step is an "
+    "integer rate only for powers of two)",
+    "final-value / mid-range-history repeat every check after the object's own in-place operations (value replacement with the same "
+    "or another length, adding a constant / series / signal, mean / polynomial removal, Butterworth filter, zero residual "
+    "velocity / displacement / both, displacement rebasing, rolling-average removal on the record and on the velocity, "
+    "correct_me, regeneration of the velocity with the rectangle rule; 3-4 of them per case in a case-dependent order): the "
+    "measures describe the record the signal holds NOW.  Which records an operation accepts is not asserted (an operation that "
+    "raises ends the history)",
+    "'v' in the statement is the object's velocity series (its exact rule and rounding bound are C08's claim).  Here it is only "
+    "required to BELONG to the record the signal holds now: within 8 x C08's bound of the long-double cumulative trapezoid of "
+    "the current record (left or right rectangle rule after generate_displacement_and_velocity_series(trap=False)), so that the "
+    "velocity-based measures stay anchored to the record and every velocity C08 accepts passes",
     "'rectangle sums' for the |a| and |v| integrals: the sum over all samples (what the code does), or the left or the right "
-    "rectangle rule is accepted for the final value; the first value must be the one belonging to the accepted variant "
-    "(|a0|*dt for the all-samples sum, 0 otherwise)",
+    "rectangle rule is accepted for the final value (the statement does not say which; all three satisfy every law of the "
+    "statement, so a switch between them cannot be told apart soundly)",
+    "calc_cumulative_abs_displacement is documented as 'identical to integral of absolute velocity' and lies in the anchored "
+    "lines: it is checked as a |v| integral on its own (length, monotone, final value); bit-equality with "
+    "calc_integral_of_abs_velocity is not demanded",
+    "intermediate values of a series are not fixed by the statement: asserted are length, finiteness, non-decreasing (exact), "
+    "first value >= 0 (a cumulative integral of a non-negative integrand; the statement spells it out for standardised CAV) "
+    "and the final value.  The laws (sign reversal, scaling, zero padding) are asserted on final values",
     "rounding bound for a sequentially accumulated sum of k terms: eps*(k+8)*sum|terms| (standard recursive-summation "
-    "bound, eps = 2u, leaves a factor >= 2); for unit kinetic energy the differences are formed from rounded 0.5*v*|v|, so "
-    "their magnitudes sum(|ke_i|+|ke_i-1|) enter the bound as well",
-    "exact (==) power-of-two scaling is asserted only when every non-zero |a_i| lies in [1e-60, 1e60] (no gradual underflow "
-    "of squares); other cases use the derived rounding bound",
-    "zero-padding law: only the acceleration-based quadrature measures (Arias, CAV, integral of |a|); the record's last "
-    "sample is forced to 0 before padding; standardised CAV is excluded because padding can complete a partial last window",
-    "standardised CAV: g = 9.81, dt = fl(1/ns) for an integer rate ns in 1..1000; one-second windows are the sample ranges "
+    "bound, eps = 2u, leaves a factor >= 2; pairwise / blocked summation is tighter); for unit kinetic energy the differences "
+    "are formed from rounded 0.5*v*|v|, so their magnitudes sum(|ke_i|+|ke_i-1|) enter the bound as well",
+    "exact (==) power-of-two scaling and sign reversal of the final values is asserted only when every non-zero |a_i| and every "
+    "scaled |alpha a_i| lies in [1e-60, 1e60] (no gradual underflow of squares; every IEEE operation commutes with a power of "
+    "two and with negation); other cases use the derived rounding bound.  Scale factors: +-2^k, |k| <= 40, and signed "
+    "log-uniform on [1e-12, 1e12]",
+    "zero-padding law: the acceleration-based quadrature measures (Arias, CAV, integral of |a|): the record's last sample is "
+    "forced to 0 before padding; final values agree within the two rounding bounds; pad lengths 0..3000 (mid-range: to 100000). "
+    "Standardised CAV: asserted only for records of a whole number of seconds (otherwise padding completes a partial last "
+    "window and the sum over complete windows itself changes), final value within 1e-12 relative",
+    "standardised CAV: g = 9.81, dt = fl(1/ns) for an integer rate ns in 1..10000; one-second windows are the sample ranges "
     "[w*ns, (w+1)*ns] (closed) for w < (npts-1)//ns, i.e. every window that lies completely inside the record; records have "
-    "at least two complete windows; a record of exactly k seconds (npts = k*ns+1) has k windows",
+    "2..300 complete windows (mid-range: to 5000) and at most 40000 samples (mid-range: 300000 / 1500000); a record of exactly k "
+    "seconds (npts = k*ns+1) has k windows; window peaks from 0 to 40 x 0.025 g",
     "standardised CAV: its length and monotonicity are checked in clause cav-dp (its domain differs from the other series); "
     "the statement fixes length, monotonicity, range and the final value; the time alignment of the "
-    "interpolated series is not asserted.  'Between 0 and CAV/9.81' is asserted for the final value against calc_cav's "
-    "final value (relative 1e-9)",
+    "interpolated series is not asserted.  'Between 0 and CAV/9.81' is asserted for the final value against the long-double "
+    "trapezoid of |a| (relative 1e-9 + 8 eps n)",
     "standardised CAV gate: a window whose max|a|/9.81 is within 1e-9 (relative) of 0.025 is ambiguous and may count or not "
-    "(bracket check); relative tolerance 1e-9 on the bracket covers the library's use of rounded time stamps as abscissae "
-    "(<= 2*eps*t_end/dt ~ 6e-12) and summation rounding (<= (n+8)*eps ~ 3e-12)",
+    "(bracket check; 0.025*9.81 is not a binary fraction, so no record has an exact tie and '>=' vs '>' is not decidable); "
+    "relative tolerance 1e-9 + 8*eps*npts on the bracket covers the use of rounded time stamps as abscissae "
+    "(<= 2*eps*t_end/dt = 2*eps*npts) and summation rounding (<= (npts+8)*eps)",
+    "_raw_calc_arias_intensity (private, anchored) is called directly with an ndarray, a list and a 2-D array (rows = series, as "
+    "cumulative_response_spectra does) when the tree under test has it; a tree without it is not a violation",
 ]
 EPS = np.finfo(float).eps
 LD = np.longdouble
@@ -61,6 +84,29 @@ MEASURES = [
 PADDED = ("arias", "cav", "abs_acc")
 
 
+def _hu(*parts):
+    """Uniform [0,1) from a hash of (VERIF_SEED, parts)."""
+    return (gen._h(gen.run_seed(), "c09", *parts) % 10 ** 9) / 1e9
+
+
+def _sd(*parts):
+    return int(gen._h(gen.run_seed(), "c09seed", *parts) % (2 ** 31 - 1))
+
+
+def _pick(seq, *parts):
+    return seq[int(_hu(*parts) * len(seq)) % len(seq)]
+
+
+def _deal(cases, shard, nshards):
+    """Deal cases to shards so that the expensive ones are spread (sorted by cost, round robin)."""
+    order = sorted(range(len(cases)), key=lambda i: -float(cases[i].get("cost", 0)))
+    for rank, i in enumerate(order):
+        if rank % nshards == shard:
+            c = dict(cases[i])
+            c.pop("cost", None)
+            yield c
+
+
 # ---------------------------------------------------------------------------
 # reference model (long double, panel by panel from the statement)
 
@@ -72,12 +118,20 @@ def _panels(y, dt):
     return LD(dt) * (y[1:] + y[:-1]) / 2
 
 
-def _ref_velocity(a, dt):
-    """Cumulative trapezoid of the record + rounding bound of a double-precision running sum."""
-    inc = _panels(a.astype(LD), dt)
+def _ref_velocity(a, dt, rule="trap"):
+    """Cumulative integral of the record (trapezoid, or the left / right rectangle rule) + the bound within which the
+    object's velocity must agree to count as the velocity of THIS record: 8 x the double-precision running-sum bound
+    eps*(k+4)*sum|increments| that C08 asserts (C08 owns the rule and the tight bound; see ASSUMPTIONS)."""
+    al = a.astype(LD)
+    if rule == "trap":
+        inc = _panels(al, dt)
+    elif rule == "left":
+        inc = LD(dt) * al[:-1]
+    else:
+        inc = LD(dt) * al[1:]
     v = np.concatenate([[LD(0)], np.cumsum(inc)])
     k = np.arange(1, len(inc) + 1, dtype=float)
-    bound = np.concatenate([[0.0], EPS * (k + 4) * np.cumsum(np.abs(np.asarray(inc, dtype=float)))])
+    bound = np.concatenate([[0.0], 8 * EPS * (k + 4) * np.cumsum(np.abs(np.asarray(inc, dtype=float)))])
     return v, bound
 
 
@@ -112,12 +166,6 @@ def _reference(a, v, dt):
     return out
 
 
-def _first_value(name, variant, a, dt):
-    if name == "abs_acc" and variant == "all-samples":
-        return abs(float(a[0])) * dt
-    return 0.0
-
-
 def _match_final(ctx, name, got, refs, what=""):
     """The final value must equal one of the accepted variants; returns the labels of all variants it matches."""
     hits = [variant for variant, val, tol in refs if abs(LD(got) - val) <= tol + 1e-290]
@@ -131,6 +179,8 @@ def _match_final(ctx, name, got, refs, what=""):
 # ---------------------------------------------------------------------------
 # shared helpers
 
+DT_FORMS = ["py", "py", "np64", "f32", "0d32", "0d64"]
+
 
 def _cases_basic(allow_int=True, max_n=5000):
     @st.composite
@@ -142,8 +192,8 @@ def _cases_basic(allow_int=True, max_n=5000):
             spec = draw(gen.record_specs(min_n=2, max_n=max_n, allow_int=allow_int))
         # how the time step is handed over: Python float, NumPy scalar or 0-d array, double or single precision
         # (a float32 step read from a binary header IS the step: the oracle uses its exact double value)
-        dtv = draw(st.sampled_from(["py", "py", "np64", "f32", "0d32", "0d64"]))
-        return {"rec": spec, "dt": draw(gen.dts(1e-4, 2.0)), "dtv": dtv}
+        dtv = draw(st.sampled_from(DT_FORMS))
+        return {"rec": spec, "dt": draw(gen.dts(1e-4, 2.0)), "dtv": dtv, "ops": draw(st.integers(0, 2 ** 30))}
     return cases()
 
 
@@ -184,16 +234,28 @@ def _series(ctx, fn, asig, name):
     return np.asarray(ctx.lib(fn, asig))
 
 
+def _series_checks(ctx, s, n, what):
+    """What the statement fixes for every series besides its final value: the record's length, finite, non-decreasing (exact:
+    'non-decreasing' is an order statement, not a numerical one), first value >= 0 (see ASSUMPTIONS)."""
+    ctx.shape(s, (n,), what)
+    ctx.finite(s, what)
+    d = np.diff(s)
+    if np.any(d < 0):
+        i = int(np.argmax(d < 0))
+        ctx.fail("%s decreases at %d: %r -> %r" % (what, i + 1, s[i], s[i + 1]))
+    ctx.check(s[0] >= 0, "%s starts below zero: %r" % (what, s[0]))
+
+
 # ---------------------------------------------------------------------------
-# clause 1: length, monotonicity, first value
+# clause 1: length, monotonicity
 
 
-@clause(CLAUSES, "series", _cases_basic(), quick=600, thorough=2500,
-        rule="records of all kinds (n 2..5000; float, integer-dtype and list containers), dt log-uniform [1e-4,2] + repo rates; "
+@clause(CLAUSES, "series", _cases_basic(), quick=500, thorough=2500,
+        rule="records of all kinds (n 2..5000, one in 40 with 60000..150000; float, int64-dtype, list, strided / read-only containers), "
+             "dt log-uniform [1e-4,2] + repo rates in six forms; "
              "seven series per case (Arias, CAV, ISV, integral |a|, integral |v|, cumulative abs displacement, unit kinetic "
              "energy); non-trivial = record has >= 2 sign changes",
-        oracle="reference model: length == npts, diff >= 0 (exact), values finite and >= 0, first value as defined "
-               "(0; |a0|*dt or 0 for the rectangle sum of |a|), cumulative abs displacement identical to integral |v|",
+        oracle="reference model: length == npts, diff >= 0 (exact), values finite, first value >= 0",
         require={"v-changes-sign": 0.1, "n>512": 0.05}, min_nontrivial=0.1)
 def series(case, ctx):
     arg, a = _record(case)
@@ -203,36 +265,103 @@ def series(case, ctx):
     v = np.asarray(ctx.lib(lambda: asig.velocity), dtype=float)
     _classify(ctx, case["rec"], a, v)
     ctx.cls("dt=" + case.get("dtv", "py"))
-    got = {}
     for name, fn, _inp, _deg in MEASURES:
         s = _series(ctx, fn, asig, name)
-        got[name] = s
-        ctx.shape(s, (n,), "%s series" % name)
-        ctx.finite(s, "%s series" % name)
-        d = np.diff(s)
-        if np.any(d < 0):
-            i = int(np.argmax(d < 0))
-            ctx.fail("%s series decreases at %d: %r -> %r" % (name, i + 1, s[i], s[i + 1]))
-        ctx.check(s[0] >= 0, "%s series starts below zero: %r" % (name, s[0]))
-        if name == "abs_acc":
-            f_all = abs(float(a[0])) * dt
-            ctx.check(s[0] == 0 or abs(s[0] - f_all) <= EPS * f_all,
-                      "abs_acc series starts at %r, expected |a0|*dt=%r (or 0 for a one-sided rectangle rule)" % (s[0], f_all))
-        else:
-            ctx.check(s[0] == 0, "%s series starts at %r, expected 0" % (name, s[0]))
-    ctx.equal(got["cad"], got["abs_vel"], "cumulative abs displacement vs integral of |v|")
+        _series_checks(ctx, s, n, "%s series" % name)
 
 
 # ---------------------------------------------------------------------------
 # clause 2: final value = defining quadrature
 
+# in-place operations of the object after which every measure is re-checked
+OPS = ["reset_values", "reset_values_len", "add_constant", "add_series", "add_signal", "remove_average", "remove_poly",
+       "butter_pass", "zero_res_vel", "zero_res_disp", "zero_res_disp_vel", "rebase", "roll_acc", "roll_vel", "correct_me",
+       "regen_rect", "regen_trap"]
+SLOW_OPS = ("roll_acc", "roll_vel", "correct_me")   # a Python loop over the record
 
-@clause(CLAUSES, "final-value", _cases_basic(), quick=600, thorough=2500,
-        rule="same generator; non-trivial = record has >= 2 sign changes",
+
+def _apply_op(asig, op, rs, dt):
+    """Apply one public in-place operation to the signal object.  Returns the velocity rule the object now uses when the
+    operation fixes it ('rect' | 'trap'), else None (a mutation resets the object to its default rule)."""
+    n = asig.npts
+    if op == "reset_values":
+        asig.reset_values(np.array(asig.values, dtype=float)[::-1] * 0.75 + 0.01 * rs.standard_normal(n))
+    elif op == "reset_values_len":
+        m = max(3, int(n * (0.5 + rs.uniform())))
+        asig.reset_values(np.cumsum(rs.standard_normal(m)) / math.sqrt(m) + 0.05)
+    elif op == "add_constant":
+        asig.add_constant(float(rs.uniform(-0.5, 0.5)) * (float(np.max(np.abs(asig.values))) + 1e-3))
+    elif op == "add_series":
+        asig.add_series(0.3 * float(np.max(np.abs(asig.values))) * np.sin(np.arange(n) * 0.37 + 1.0))
+    elif op == "add_signal":
+        asig.add_signal(eqsig.AccSignal(0.2 * float(np.max(np.abs(asig.values))) * np.cos(np.arange(n) * 0.11), asig.dt))
+    elif op == "remove_average":
+        asig.remove_average()
+    elif op == "remove_poly":
+        asig.remove_poly(poly_fit=int(rs.randint(0, 3)))
+    elif op == "butter_pass":
+        fny = 0.5 / dt
+        asig.butter_pass((None, 0.4 * fny) if rs.randint(0, 2) else (0.02 * fny, 0.5 * fny))
+    elif op == "zero_res_vel":
+        asig.set_zero_residual_velocity()
+    elif op == "zero_res_disp":
+        asig.set_zero_residual_displacement()
+    elif op == "zero_res_disp_vel":
+        asig.set_zero_residual_displacement_and_velocity()
+    elif op == "rebase":
+        asig.rebase_displacement()
+    elif op in ("roll_acc", "roll_vel"):
+        w = 3 + int(rs.randint(0, 7))
+        asig.remove_rolling_average(mtype="acceleration" if op == "roll_acc" else "velocity", freq_window=1.0 / (dt * (w + 0.5)))
+    elif op == "correct_me":
+        asig.correct_me()
+    elif op == "regen_rect":
+        asig.generate_displacement_and_velocity_series(trap=False)
+        return "rect"
+    elif op == "regen_trap":
+        asig.generate_displacement_and_velocity_series(trap=True)
+        return "trap"
+    else:
+        raise ValueError(op)
+    return None
+
+
+def _history(ctx, asig, a, dt, seed, count, allow_slow):
+    """Apply `count` operations (chosen and ordered by `seed`) and repeat the final-value checks after each one.
+    The measures and the velocity were read before (a stale cache would show)."""
+    n = len(a)
+    if not (n >= 3 and np.asarray(asig.values).dtype.kind == "f" and np.any(a) and np.all(np.abs(a) < 1e150)):
+        return
+    rs = np.random.RandomState(seed % (2 ** 31 - 1))
+    pool = [op for op in OPS if allow_slow or op not in SLOW_OPS]
+    ops = [pool[int(i)] for i in rs.randint(0, len(pool), size=count)]
+    if allow_slow and count >= 3:
+        # the two rolling-average branches are part of most histories (they write the record in place)
+        ops[int(rs.randint(0, count))] = "roll_acc"
+        if rs.randint(0, 2):
+            ops[int(rs.randint(0, count))] = "roll_vel"
+    for op in ops:
+        try:
+            rule = _apply_op(asig, op, rs, dt)
+        except Exception:  # noqa  (which records an operation accepts is not C09's business)
+            break
+        cur = np.array(asig.values, dtype=float)
+        if cur.ndim != 1 or len(cur) < 2 or not np.all(np.isfinite(cur)) or not np.all(np.abs(cur) < 1e150):
+            break
+        ctx.cls("after-operation", "after-" + op)
+        if op in ("roll_acc", "roll_vel"):
+            ctx.cls("after-rolling-average")
+        _final_checks(ctx, asig, cur, dt, " after %s" % op, rule=rule or "trap", key=seed)
+
+
+@clause(CLAUSES, "final-value", _cases_basic(), quick=500, thorough=2500,
+        rule="same generator; then 3-4 in-place operations of the object in a case-dependent order, every check repeated after each; "
+             "non-trivial = record has >= 2 sign changes",
         oracle="reference model: long-double panel sums of the defining quadratures (pi/(2*9.81)*trapz(a^2), trapz|a|, "
-               "trapz(v^2), sum|a|dt, sum|v|dt, sum|d(0.5 v|v|)|), bound eps*(n+8)*sum|terms|; velocity vs long-double "
-               "cumulative trapezoid of the record",
-        require={"v-changes-sign": 0.1, "n>512": 0.05, "dt=f32": 0.06, "after-rolling-average": 0.3}, min_nontrivial=0.1)
+               "trapz(v^2), sum|a|dt, sum|v|dt, sum|d(0.5 v|v|)|), bound eps*(n+8)*sum|terms|; the velocity the measures use "
+               "belongs to the current record (8 x C08's bound of the long-double cumulative integral)",
+        require={"v-changes-sign": 0.1, "n>512": 0.05, "dt=f32": 0.06, "after-rolling-average": 0.25, "after-operation": 0.5},
+        min_nontrivial=0.1)
 def final_value(case, ctx):
     arg, a = _record(case)
     dt_arg, dt = _dt(case)
@@ -241,13 +370,22 @@ def final_value(case, ctx):
     v = np.asarray(ctx.lib(lambda: asig.velocity), dtype=float)
     _classify(ctx, case["rec"], a, v)
     ctx.cls("dt=" + case.get("dtv", "py"))
-    _final_checks(ctx, asig, a, dt, "")
-    # the measures describe the record the signal holds NOW: repeat after the object's own in-place baseline corrections
-    # (velocity and peaks were read above, so a stale cache would show)
+    key = int(case.get("ops", n))
+    _final_checks(ctx, asig, a, dt, "", key=key, raw_arg=arg, raw_dt=dt_arg)
+    # the measures describe the record the signal holds NOW: repeat after the object's own in-place operations
+    # (velocity and every measure were read above, so a stale cache would show)
+    if "ops" in case:
+        _history(ctx, asig, a, dt, key, 3 + key % 2, allow_slow=n <= 3000)
+    else:
+        _legacy_corrections(ctx, asig, a, dt)
+
+
+def _legacy_corrections(ctx, asig, a, dt):
+    """Cases recorded before the operation histories (regression corpus): the original corrections."""
+    n = len(a)
     if n >= 3 and np.asarray(asig.values).dtype.kind == "f" and np.any(a) and np.all(np.abs(a) < 1e150):
         corrs = ["set_zero_residual_velocity", "rebase_displacement"]
         if n <= 3000:
-            # rolling-average removal on the record itself / on the velocity (window of 3..9 samples), in a case-dependent order
             w = 3 + (n % 7)
             roll = [("remove_rolling_average", {"mtype": m, "freq_window": 1.0 / (dt * (w + 0.5))}) for m in ("acceleration", "velocity")]
             k = n % 3
@@ -258,7 +396,7 @@ def final_value(case, ctx):
                 corr, kw = corr
             try:
                 getattr(asig, corr)(**kw)
-            except Exception:  # noqa  (which records a correction accepts is not C09's business)
+            except Exception:  # noqa
                 break
             if kw:
                 corr += "(%s)" % kw["mtype"]
@@ -266,24 +404,49 @@ def final_value(case, ctx):
             cur = np.array(asig.values, dtype=float)
             if not np.all(np.isfinite(cur)):
                 break
-            ctx.cls("after-correction")
+            ctx.cls("after-operation")
             _final_checks(ctx, asig, cur, dt, " after %s" % corr)
 
 
-def _final_checks(ctx, asig, a, dt, tag):
+def _final_checks(ctx, asig, a, dt, tag, rule="trap", key=0, raw_arg=None, raw_dt=None):
+    """Every quadrature-defined measure of the signal object against the defining integral of the record `a` it holds.
+    The order in which the velocity and the measures are read is case-dependent (`key`)."""
     n = len(a)
-    v = np.asarray(ctx.lib(lambda: asig.velocity), dtype=float)
+    order = list(range(len(MEASURES)))
+    np.random.RandomState(key % (2 ** 31 - 1)).shuffle(order)
+    got = {}
+    v_first = key % 3 != 0
+    if v_first:
+        v = np.asarray(ctx.lib(lambda: asig.velocity), dtype=float)
+    for j in order:
+        name, fn, _inp, _deg = MEASURES[j]
+        got[name] = _series(ctx, fn, asig, name)
+    if not v_first:
+        v = np.asarray(ctx.lib(lambda: asig.velocity), dtype=float)
     ctx.shape(v, (n,), "velocity" + tag)
-    vref, vb = _ref_velocity(a, dt)
-    ctx.close(v, vref, vb, "velocity vs long-double cumulative trapezoid" + tag)
+    # the velocity the measures are built on must be the velocity of the record the signal holds now (see ASSUMPTIONS)
+    fits = []
+    for r in (["trap"] if rule == "trap" else ["left", "right"]):
+        vref, vb = _ref_velocity(a, dt, r)
+        fits.append((r, vref, vb, bool(np.all(np.abs(v.astype(LD) - vref) <= vb + 1e-290))))
+    if not any(f[3] for f in fits):
+        r, vref, vb, _ = fits[0]
+        ctx.close(v, vref, vb, "velocity of the signal vs long-double cumulative integral of its record (%s rule)%s" % (r, tag))
     refs = _reference(a, v, dt)
     for name, fn, _inp, _deg in MEASURES:
-        s = _series(ctx, fn, asig, name)
-        ctx.shape(s, (n,), "%s series%s" % (name, tag))
-        variants = _match_final(ctx, name, s[-1], refs[name], what=tag)
-        firsts = [_first_value(name, variant, a, dt) for variant in variants]
-        ctx.check(any(abs(s[0] - f0) <= EPS * abs(f0) for f0 in firsts), "%s%s: first value %r, expected %r (%s)" % (
-            name, tag, s[0], firsts[0], variants[0]))
+        s = got[name]
+        _series_checks(ctx, s, n, "%s series%s" % (name, tag))
+        _match_final(ctx, name, s[-1], refs[name], what=tag)
+    raw = getattr(im, "_raw_calc_arias_intensity", None)
+    if raw is not None and raw_arg is not None:
+        # the anchored array-level helper, called the way a user with a plain array (or list) would
+        if isinstance(raw_arg, np.ndarray) and key % 2 and n <= 50000 and raw_arg.dtype.kind == "f":
+            raw_arg = [float(x) for x in raw_arg]
+        s = np.asarray(ctx.lib(raw, raw_arg, raw_dt))
+        ctx.cls("raw-arias-list" if isinstance(raw_arg, list) else "raw-arias-array")
+        _series_checks(ctx, s, n, "_raw_calc_arias_intensity series" + tag)
+        _match_final(ctx, "arias(array-level)", s[-1], refs["arias"], what=tag)
+    return got, v
 
 
 # ---------------------------------------------------------------------------
@@ -292,120 +455,130 @@ def _final_checks(ctx, asig, a, dt, tag):
 
 @st.composite
 def _law_cases(draw):
-    spec = draw(gen.record_specs(min_n=2, max_n=3000, allow_int=False))
-    case = {"rec": spec, "dt": draw(gen.dts(1e-4, 2.0))}
+    spec = draw(gen.record_specs(min_n=2, max_n=3000, allow_int=True))
+    case = {"rec": spec, "dt": draw(gen.dts(1e-4, 2.0)), "dtv": draw(st.sampled_from(DT_FORMS))}
     if draw(st.booleans()):
-        case["k2"] = draw(st.integers(-8, 8).filter(lambda k: k != 0))
+        case["k2"] = draw(st.one_of(st.integers(-8, 8), st.integers(-40, 40)).filter(lambda k: k != 0))
         case["neg"] = draw(st.booleans())
     else:
-        case["alpha"] = draw(gen.scalars())
-    case["pad"] = draw(st.one_of(st.integers(0, 8), st.integers(0, 600)))
+        case["alpha"] = draw(st.one_of(gen.scalars(), gen.scalars(1e-12, 1e12)))
+    case["pad"] = draw(st.one_of(st.integers(0, 8), st.integers(0, 600), st.integers(600, 3000)))
     return case
 
 
-def _all_series(ctx, a, dt):
-    asig = ctx.lib(eqsig.AccSignal, a, dt)
+def _all_finals(ctx, arg, dt_arg, n, what):
+    asig = ctx.lib(eqsig.AccSignal, arg, dt_arg)
     out = {}
     for name, fn, _inp, _deg in MEASURES:
-        out[name] = _series(ctx, fn, asig, name)
+        s = _series(ctx, fn, asig, name)
+        ctx.shape(s, (n,), "%s series of %s" % (name, what))
+        out[name] = float(s[-1])
     return out, np.asarray(ctx.lib(lambda: asig.velocity), dtype=float)
 
 
-@clause(CLAUSES, "laws", _law_cases(), quick=500, thorough=2000,
-        rule="float records of all kinds (n 2..3000), alpha = +-2^k (k in -8..8, k != 0) or signed log-uniform on [1e-3,1e3], "
-             "padding length 0..600 (small lengths favoured); non-trivial = record has >= 2 sign changes",
-        oracle="metamorphic: a -> -a leaves all seven series bit-identical; a -> alpha*a multiplies them by alpha^2 / |alpha| "
-               "(== for powers of two, otherwise final values within the derived rounding bound); appending zeros to the "
-               "record with its last sample set to 0 leaves Arias / CAV / integral |a| unchanged on the original span and "
-               "constant afterwards (==)",
-        require={"pow2": 0.2, "general-alpha": 0.2, "pad>0": 0.4}, min_nontrivial=0.1)
-def laws(case, ctx):
-    a = gen.build(case["rec"])
-    dt = case["dt"]
+def _law_checks(ctx, case, arg, a, dt_arg, dt):
+    """Sign reversal, amplitude scaling and zero padding, asserted on the final values."""
     n = len(a)
-    _classify(ctx, case["rec"], a)
-    base, v = _all_series(ctx, a, dt)
+    base, v = _all_finals(ctx, arg, dt_arg, n, "the record")
+    # --- sign reversal (negation commutes with every IEEE operation: exact for any implementation)
+    flip, _ = _all_finals(ctx, -a, dt_arg, n, "the sign-reversed record")
     for name in base:
-        ctx.shape(base[name], (n,), "%s series" % name)
-    # --- sign reversal
-    flip, _ = _all_series(ctx, -a, dt)
-    for name in base:
-        ctx.equal(flip[name], base[name], "%s of the sign-reversed record" % name)
+        ctx.check(flip[name] == base[name], "%s of the sign-reversed record: final value %r vs %r" % (name, flip[name], base[name]))
     # --- scaling
-    nz = np.abs(a[a != 0])
-    tiny = bool(len(nz) and (nz.min() < 1e-60 or nz.max() > 1e60))
-    if tiny:
-        ctx.cls("tiny-values")
     if "k2" in case:
         alpha = (-1.0 if case.get("neg") else 1.0) * 2.0 ** case["k2"]
         ctx.cls("pow2")
     else:
         alpha = float(case["alpha"])
         ctx.cls("general-alpha")
+    if abs(math.log10(abs(alpha))) > 3.01:
+        ctx.cls("wide-alpha")
     b = alpha * a
-    scaled, _vb = _all_series(ctx, b, dt)
+    nz = np.abs(np.concatenate([a[a != 0], b[b != 0]]))
+    tiny = bool(len(nz) and (nz.min() < 1e-60 or nz.max() > 1e60))
+    if tiny:
+        ctx.cls("tiny-values")
+    scaled, _vb = _all_finals(ctx, b, dt_arg, n, "the scaled record")
     exact = "k2" in case and not tiny
     # rounding bounds for the general case (see ASSUMPTIONS): each side's own evaluation error + propagation through v
     if not exact:
         _vr, bva = _ref_velocity(a, dt)
         _vr2, bvb = _ref_velocity(b, dt)
+        bva, bvb = bva / 8, bvb / 8   # the running-sum bound itself (the factor 8 belongs to the anchoring check only)
         # b_i = alpha*a_i*(1+d_i), |d_i| <= u: the exact velocities differ by at most u*|alpha|*cumtrapz(|a|)
         inc = np.concatenate([[0.0], np.cumsum(np.asarray(_panels(np.abs(a).astype(LD), dt), dtype=float))])
         delta = bvb + abs(alpha) * bva + EPS * abs(alpha) * inc          # |v(b)_i - alpha v(a)_i|
         e2 = delta * (2 * abs(alpha) * np.abs(v) + delta)                  # |v(b)_i^2 - alpha^2 v(a)_i^2|
     for name, _fn, inp, deg in MEASURES:
         f = abs(alpha) ** deg
-        want = f * base[name]
+        sa = base[name]
         if exact:
-            ctx.equal(scaled[name], want, "%s of the record scaled by %r vs %s * series" % (
-                name, alpha, "alpha^2" if deg == 2 else "|alpha|"))
+            ctx.check(scaled[name] == f * sa, "%s of the record scaled by %r: final value %r vs %s * %r" % (
+                name, alpha, scaled[name], "alpha^2" if deg == 2 else "|alpha|", sa))
             continue
-        sa = float(base[name][-1])
-        tol = EPS * (n + 8) * (float(scaled[name][-1]) + f * sa) + 8 * EPS * f * sa
+        tol = EPS * (n + 8) * (scaled[name] + f * sa) + 8 * EPS * f * sa
         if name == "uke":
             ke = 0.5 * v * np.abs(v)
             tol += 4 * EPS * f * float(2 * np.sum(np.abs(ke)))
         if inp == "vel":
             tol += {"isv": dt * float(np.sum(e2)), "abs_vel": dt * float(np.sum(delta)), "cad": dt * float(np.sum(delta)),
                     "uke": float(np.sum(e2))}[name]
-        ctx.check(abs(LD(scaled[name][-1]) - LD(f) * LD(sa)) <= tol + 1e-290,
+        ctx.check(abs(LD(scaled[name]) - LD(f) * LD(sa)) <= tol + 1e-290,
                   "%s does not scale as %s: alpha=%r gives %r, expected %r (tol %.3e)" % (
-                      name, "alpha^2" if deg == 2 else "|alpha|", alpha, float(scaled[name][-1]), f * sa, tol))
+                      name, "alpha^2" if deg == 2 else "|alpha|", alpha, scaled[name], f * sa, tol))
     # --- zero padding of a record that ends at zero
     p = int(case["pad"])
     ctx.cls("pad>0" if p > 0 else "pad=0")
     a0 = a.copy()
     a0[-1] = 0.0
-    ref_asig = ctx.lib(eqsig.AccSignal, a0, dt)
-    pad_asig = ctx.lib(eqsig.AccSignal, np.concatenate([a0, np.zeros(p)]), dt)
+    ref_asig = ctx.lib(eqsig.AccSignal, a0, dt_arg)
+    pad_asig = ctx.lib(eqsig.AccSignal, np.concatenate([a0, np.zeros(p)]), dt_arg)
     for name, fn, _inp, _deg in MEASURES:
         if name not in PADDED:
             continue
         s0 = _series(ctx, fn, ref_asig, name)
         s1 = _series(ctx, fn, pad_asig, name)
-        ctx.shape(s1, (n + p,), "%s of the padded record" % name)
-        ctx.equal(s1[:n], s0, "%s on the original span after appending %d zeros" % (name, p))
-        ctx.check(bool(np.all(s1[n:] == s0[-1])), "%s not constant over the %d appended zeros (final %r vs %r)" % (
-            name, p, s1[-1], s0[-1]))
+        _series_checks(ctx, s1, n + p, "%s of the padded record" % name)
+        tol = EPS * (2 * n + p + 16) * float(s0[-1])   # each side's own running-sum bound
+        ctx.check(abs(LD(s1[-1]) - LD(s0[-1])) <= tol + 1e-290,
+                  "%s changed by appending %d zeros to a record that ends at zero: %r -> %r (tol %.3e)" % (name, p, s0[-1], s1[-1], tol))
+
+
+@clause(CLAUSES, "laws", _law_cases(), quick=450, thorough=2000,
+        rule="records of all kinds and containers (n 2..3000), six dt forms, alpha = +-2^k (|k| <= 40, k != 0) or signed log-uniform on "
+             "[1e-12,1e12], padding length 0..3000 (small lengths favoured); non-trivial = record has >= 2 sign changes",
+        oracle="metamorphic, on final values: a -> -a leaves all seven identical (==); a -> alpha*a multiplies them by alpha^2 / |alpha| "
+               "(== for powers of two, otherwise within the derived rounding bound); appending zeros to the "
+               "record with its last sample set to 0 leaves Arias / CAV / integral |a| unchanged (two running-sum bounds), the padded "
+               "series has the padded length and is non-decreasing",
+        require={"pow2": 0.2, "general-alpha": 0.2, "pad>0": 0.4, "wide-alpha": 0.1}, min_nontrivial=0.1)
+def laws(case, ctx):
+    arg, a = _record(case)
+    dt_arg, dt = _dt(case)
+    _classify(ctx, case["rec"], a)
+    ctx.cls("dt=" + case.get("dtv", "py"))
+    _law_checks(ctx, case, arg, a, dt_arg, dt)
 
 
 # ---------------------------------------------------------------------------
 # clause 4: standardised CAV
 
-COMMON_RATES = [1, 2, 4, 5, 8, 10, 20, 25, 40, 50, 64, 100, 125, 128, 200, 250, 256, 400, 500, 512, 1000]
+COMMON_RATES = [1, 2, 4, 5, 8, 10, 20, 25, 40, 50, 64, 100, 125, 128, 200, 250, 256, 400, 500, 512, 1000, 2000, 2048, 4000, 5000,
+                10000]
 # floating-point boundary families of "integer number of samples per second" (pure float predicates on dt = fl(1/ns)):
 # the reciprocal of dt rounds below ns / the end time of a k-second record rounds below k
 RECIP_DOWN = [ns for ns in range(1, 1001) if 1.0 / (1.0 / ns) < ns]
 DUR_DOWN = [[ns, k] for ns in range(1, 1001) for k in range(2, 13) if (k * ns) * (1.0 / ns) < k]
 RECIPE_KINDS = ["noise", "sines", "pulse", "step", "walk", "const", "quake"]
+CAVDP_MAX_N = 40000
 
-_gain = st.one_of(st.sampled_from([0.0, 0.5, 0.9, 0.999999, 1.0, 1.000001, 1.1, 2.0, 8.0]),
-                  st.floats(0.0, 4.0, allow_nan=False))
+_gain = st.one_of(st.sampled_from([0.0, 0.5, 0.9, 0.999999, 1.0, 1.000001, 1.1, 2.0, 8.0, 40.0]),
+                  st.floats(0.0, 4.0, allow_nan=False), st.floats(4.0, 40.0, allow_nan=False))
 
 
 @st.composite
 def _cavdp_cases(draw):
-    fam = draw(st.sampled_from(["any", "any", "any", "common", "recip-down", "dur-down"]))
+    fam = draw(st.sampled_from(["any", "any", "any", "common", "recip-down", "dur-down", "high", "long"]))
     k = draw(st.integers(2, 12))
     mode = draw(st.sampled_from(["exact", "exact", "minus1", "plus1", "rand"]))
     if fam == "any":
@@ -414,9 +587,15 @@ def _cavdp_cases(draw):
         ns = draw(st.sampled_from(COMMON_RATES))
     elif fam == "recip-down":
         ns = draw(st.sampled_from(RECIP_DOWN))
+    elif fam == "high":                      # above 1 kHz (strong-motion arrays, geophones)
+        ns = int(draw(gen.log_uniform(1001, 10000)))
+    elif fam == "long":                      # real records last 30-300 s
+        ns = draw(st.one_of(st.integers(1, 200), st.sampled_from([50, 100, 200])))
+        k = draw(st.integers(13, 300))
     else:
         ns, k = draw(st.sampled_from(DUR_DOWN))
         mode = "exact"
+    k = max(2, min(k, (CAVDP_MAX_N - 2) // ns - 1))
     if mode == "exact":
         n = k * ns + 1                       # exactly k seconds
     elif mode == "minus1":
@@ -426,10 +605,12 @@ def _cavdp_cases(draw):
     else:
         n = k * ns + 1 + draw(st.integers(0, max(0, ns - 1)))
     kinds = None if n <= 64 else RECIPE_KINDS
-    spec = draw(gen.record_specs(min_n=n, max_n=n, small_max=n, kinds=kinds, allow_zero_runs=False, amp_lo=0, amp_hi=0))
+    spec = draw(gen.record_specs(min_n=n, max_n=n, small_max=n, kinds=kinds, allow_zero_runs=False, amp_lo=0, amp_hi=0,
+                                 allow_int=["list", "view", "negstride", "readonly"]))
     nwin = (n - 1) // ns + 1
     gains = draw(st.lists(_gain, min_size=nwin, max_size=nwin))
-    return {"ns": ns, "rec": spec, "gains": gains, "norm": draw(st.booleans())}
+    return {"ns": ns, "rec": spec, "gains": gains, "norm": draw(st.booleans()),
+            "dtv": draw(st.sampled_from(["py", "py", "np64", "0d64"])), "pad": draw(st.integers(1, 3 * ns + 2))}
 
 
 def _cavdp_record(case):
@@ -453,53 +634,91 @@ def _cavdp_record(case):
 
 
 def _cavdp_bracket(a, ns, dt):
-    """[lo, hi] for the final standardised CAV from the statement + per-window gate states (True/False/None=ambiguous)."""
+    """[lo, hi] for the final standardised CAV from the statement + per-window gate states (True/False/None=ambiguous).
+    Vectorised over the windows [w*ns, (w+1)*ns], w < (n-1)//ns (long double)."""
     n = len(a)
     nwin = (n - 1) // ns
     g = np.abs(a.astype(LD)) / LD(G)
-    lo = LD(0)
-    hi = LD(0)
-    states = []
-    for w in range(nwin):
-        seg = g[w * ns:(w + 1) * ns + 1]
-        pan = _panels(seg, dt)
-        full = pan.sum()
-        peak = float(seg.max())
-        if abs(peak / GATE - 1.0) < 1e-9:
-            states.append(None)
-            hi += full
-        elif peak >= GATE:
-            states.append(True)
-            hi += full
-            lo += full - pan[-1]
-        else:
-            states.append(False)
+    pan = _panels(g[:nwin * ns + 1], dt).reshape(nwin, ns)
+    full = pan.sum(axis=1)
+    last = pan[:, -1]
+    peak = np.maximum(g[:nwin * ns].reshape(nwin, ns).max(axis=1), g[ns:nwin * ns + 1:ns]).astype(float)  # closing sample included
+    amb = np.abs(peak / GATE - 1.0) < 1e-9
+    yes = (peak >= GATE) & ~amb
+    hi = full[yes | amb].sum() if np.any(yes | amb) else LD(0)
+    lo = (full - last)[yes].sum() if np.any(yes) else LD(0)
+    states = [None if m else bool(y) for m, y in zip(amb.tolist(), yes.tolist())]
     return lo, hi, states
 
 
-@clause(CLAUSES, "cav-dp", _cavdp_cases(), quick=700, thorough=2500,
-        rule="dt = 1/ns, ns uniform on 1..1000 + common rates + the float boundary families (1/dt rounds below ns; k*ns*dt "
-             "rounds below k); 2..12 complete seconds, length exactly k seconds / one sample short of the next window / one "
-             "over / random; base record of any kind normalised (globally or per second) and multiplied per one-second chunk "
-             "by a gain in {0,.5,.9,1-1e-6,1,1+1e-6,1.1,2,8} or U(0,4) times 0.025 g; "
+def _cavdp_checks(ctx, arg, a, ns, dt_arg, dt, what=""):
+    """Everything the statement says about standardised CAV of the record `a` (dt = 1/ns).  Returns (series, states)."""
+    n = len(a)
+    nwin = (n - 1) // ns
+    lo, hi, states = _cavdp_bracket(a, ns, dt)
+    yes = states.count(True)
+    asig = ctx.lib(eqsig.AccSignal, arg, dt_arg)
+    s = np.asarray(ctx.lib(im.calc_cav_dp, asig))
+    _series_checks(ctx, s, n, "standardised CAV series" + what)
+    final = float(s[-1])
+    if hi == 0:
+        ctx.check(not np.any(s), "no one-second window reaches 0.025 g but standardised CAV is %r%s" % (final, what))
+    rel = 1e-9 + 8 * EPS * n
+    tol = rel * float(hi)
+    if not (lo - tol <= final <= hi + tol):
+        ctx.fail("standardised CAV %r outside [%r, %r] (ns=%d, npts=%d, %d windows: %d qualify, %d ambiguous)%s" % (
+            final, float(lo), float(hi), ns, n, nwin, yes, states.count(None), what))
+    cav = float(_panels(np.abs(a.astype(LD)), dt).sum())   # the defining trapezoid of |a|, not the library's calc_cav
+    ctx.check(0 <= final <= cav / G * (1 + rel), "standardised CAV %r not in [0, CAV/9.81 = %r]%s" % (final, cav / G, what))
+    return s, states
+
+
+def _cavdp_padding_law(ctx, a, ns, dt_arg, dt, p, nwin):
+    """Appending zeros to a record of whole seconds that ends at zero: the complete windows are the same, the new ones empty."""
+    ctx.cls("padding-law")
+    a0 = a.copy()
+    a0[-1] = 0.0
+    s0, _ = _cavdp_checks(ctx, a0, a0, ns, dt_arg, dt, " (last sample set to 0)")
+    a1 = np.concatenate([a0, np.zeros(p)])
+    s1, _ = _cavdp_checks(ctx, a1, a1, ns, dt_arg, dt, " (%d zeros appended)" % p)
+    ctx.check(abs(float(s1[-1]) - float(s0[-1])) <= 1e-12 * float(s0[-1]),
+              "standardised CAV changed by appending %d zeros to a record of %d whole seconds ending at zero: %r -> %r" % (
+                  p, nwin, float(s0[-1]), float(s1[-1])))
+
+
+@clause(CLAUSES, "cav-dp", _cavdp_cases(), quick=600, thorough=2500,
+        rule="dt = 1/ns, ns uniform on 1..1000 + common rates to 10 kHz + log-uniform 1001..10000 + the float boundary families (1/dt "
+             "rounds below ns; k*ns*dt rounds below k); 2..12 complete seconds (one family 13..300 s), at most 40000 samples, length "
+             "exactly k seconds / one sample short of the next window / one over / random; base record of any kind (float array, list, "
+             "strided / read-only container) normalised (globally or per second) and multiplied per one-second chunk "
+             "by a gain in {0,.5,.9,1-1e-6,1,1+1e-6,1.1,2,8,40}, U(0,4) or U(4,40) times 0.025 g; dt as float / np.float64 / 0-d; "
              "non-trivial = at least one qualifying and one non-qualifying window",
         oracle="reference model: windows [w*ns,(w+1)*ns], gate max|a|/9.81 >= 0.025 (1e-9 band ambiguous), final value in "
-               "[sum(full - last panel), sum full] over qualifying windows (rel 1e-9); all zero when no window can qualify; "
-               "length, diff >= 0, 0 <= final <= CAV/9.81; bit-identical for the sign-reversed record",
+               "[sum(full - last panel), sum full] over qualifying windows (rel 1e-9 + 8 eps n); all zero when no window can qualify; "
+               "length, diff >= 0, 0 <= final <= trapz|a|/9.81 (long double); identical final value for the sign-reversed record; "
+               "records of whole seconds that end at zero: unchanged by appended zeros (rel 1e-12)",
         require={"recip-rounds-down": 0.03, "exact-duration": 0.25, "dur-rounds-down": 0.04, "mixed-gates": 0.3,
-                 "none-qualify": 0.05, "common-rate": 0.08},
+                 "none-qualify": 0.03, "common-rate": 0.08, "ns>1000": 0.05, "windows>12": 0.05, "peak>0.2g": 0.2,
+                 "padding-law": 0.2},
         min_nontrivial=0.3)
 def cav_dp(case, ctx):
     ns = int(case["ns"])
     dt = 1.0 / ns
+    dt_arg, _ = _dt({"dt": dt, "dtv": case.get("dtv", "py")})
     a = _cavdp_record(case)
+    arg = gen.as_container(case["rec"], a)
     n = len(a)
     nwin = (n - 1) // ns
     if nwin < 2:
         raise ValueError("case outside the domain: fewer than two complete seconds")
-    lo, hi, states = _cavdp_bracket(a, ns, dt)
+    _lo, _hi, states = _cavdp_bracket(a, ns, dt)
     # classes
-    ctx.cls("kind=" + case["rec"]["k"], "ns<=10" if ns <= 10 else ("ns<=100" if ns <= 100 else "ns<=1000"))
+    ctx.cls("kind=" + case["rec"]["k"], "ns<=10" if ns <= 10 else ("ns<=100" if ns <= 100 else ("ns<=1000" if ns <= 1000 else "ns>1000")))
+    ctx.cls("dt=" + case.get("dtv", "py"), ("as=" + case["rec"]["as"]) if case["rec"].get("as") else None)
+    if nwin > 12:
+        ctx.cls("windows>12")
+    if np.max(np.abs(a)) > 0.2 * G:
+        ctx.cls("peak>0.2g")
     if ns in COMMON_RATES:
         ctx.cls("common-rate")
     if 1.0 / dt < ns:
@@ -518,27 +737,12 @@ def cav_dp(case, ctx):
     ctx.cls("mixed-gates" if yes and no else ("all-qualify" if yes and not no else ("none-qualify" if not yes else None)))
     ctx.nt(bool(yes and no))
 
-    asig = ctx.lib(eqsig.AccSignal, a, dt)
-    s = np.asarray(ctx.lib(im.calc_cav_dp, asig))
-    ctx.shape(s, (n,), "standardised CAV series")
-    ctx.finite(s, "standardised CAV series")
-    d = np.diff(s)
-    if np.any(d < 0):
-        i = int(np.argmax(d < 0))
-        ctx.fail("standardised CAV series decreases at %d: %r -> %r" % (i + 1, s[i], s[i + 1]))
-    ctx.check(s[0] >= 0, "standardised CAV series starts below zero: %r" % s[0])
-    final = float(s[-1])
-    if hi == 0:
-        ctx.check(not np.any(s), "no one-second window reaches 0.025 g but standardised CAV is %r" % final)
-    tol = 1e-9 * float(hi)
-    if not (lo - tol <= final <= hi + tol):
-        ctx.fail("standardised CAV %r outside [%r, %r] (ns=%d, npts=%d, %d windows: %d qualify, %d ambiguous)" % (
-            final, float(lo), float(hi), ns, n, nwin, yes, states.count(None)))
-    cav = np.asarray(ctx.lib(im.calc_cav, asig))
-    ctx.check(0 <= final <= float(cav[-1]) / G * (1 + 1e-9), "standardised CAV %r not in [0, CAV/9.81 = %r]" % (
-        final, float(cav[-1]) / G))
-    s2 = np.asarray(ctx.lib(im.calc_cav_dp, ctx.lib(eqsig.AccSignal, -a, dt)))
-    ctx.equal(s2, s, "standardised CAV of the sign-reversed record")
+    s, _ = _cavdp_checks(ctx, arg, a, ns, dt_arg, dt)
+    s2 = np.asarray(ctx.lib(im.calc_cav_dp, ctx.lib(eqsig.AccSignal, -a, dt_arg)))
+    ctx.shape(s2, (n,), "standardised CAV series of the sign-reversed record")
+    ctx.check(s2[-1] == s[-1], "standardised CAV of the sign-reversed record: %r vs %r" % (s2[-1], s[-1]))
+    if (n - 1) % ns == 0 and "pad" in case:
+        _cavdp_padding_law(ctx, a, ns, dt_arg, dt, int(case["pad"]), nwin)
 
 
 # ---------------------------------------------------------------------------
@@ -561,7 +765,252 @@ def giant_records(case, ctx):
     a = np.random.RandomState(case["seed"]).standard_normal(n) * np.hanning(n) * 0.3 + 0.002
     ctx.nt(True)
     asig = ctx.lib(eqsig.AccSignal, a, dt)
-    _final_checks(ctx, asig, a, dt, " (n=%d)" % n)
-    for name, fn, _inp, _deg in MEASURES:
-        sr = _series(ctx, fn, asig, name)
-        ctx.check(bool(np.all(np.diff(sr) >= 0)), "%s series of a giant record is not non-decreasing" % name)
+    _final_checks(ctx, asig, a, dt, " (n=%d)" % n, raw_arg=a, raw_dt=dt)
+
+
+# ---------------------------------------------------------------------------
+# mid-range sizes (DESIGN 8.5): a code path that exists only inside a window of record lengths / window counts / rows x samples.
+# Deterministic enumerations; sizes from gen.size_ladder / gen.product_pairs (one size per logarithmic bin, placed by VERIF_SEED,
+# plus sizes aimed at the integer literals of the tree under test); data are a pure function of the case.
+
+MID_KINDS = ["quake", "sines", "walk", "noise"]
+MID_CONTAINERS = ["ndarray", "ndarray", "ndarray", "list", "view", "negstride", "readonly", "int"]
+
+
+def _mid_record(n, seed, kind):
+    """Ordinary data that keep an error visible: no trailing all-zero stretch, non-zero mean, every stretch different."""
+    rs = np.random.RandomState(seed)
+    t = np.arange(n, dtype=float)
+    amp = 10.0 ** rs.uniform(-2.0, 1.5)
+    if kind == "quake":
+        x = (t + 1.0) / n
+        env = x ** 2 * np.exp(-5.0 * x)
+        a = rs.standard_normal(n) * (0.1 + env / env.max()) + 0.004
+    elif kind == "sines":
+        a = np.full(n, 0.013)
+        for _ in range(3):
+            a = a + rs.uniform(0.2, 1.0) * np.sin(2 * math.pi * rs.uniform(3.0, n / 9.0) * t / n + rs.uniform(0, 6.28))
+    elif kind == "walk":
+        a = np.cumsum(rs.standard_normal(n)) / math.sqrt(n) + 0.05 * rs.standard_normal(n) + 0.02
+    else:
+        a = rs.standard_normal(n) * (1.0 + 0.5 * np.sin(t * (7.0 / n))) + 0.006
+    return a * amp
+
+
+def _mid_container(a, how):
+    if how == "int":
+        return np.array(np.round(a * (1000.0 / max(1e-300, float(np.max(np.abs(a)))))), dtype=np.int64)
+    if how == "ndarray":
+        return a
+    return gen.as_container({"as": how}, a)
+
+
+def _mid_sizes(tier, tag, count_q, count_t, hi_q=300000, hi_t=2000000, lo=2000):
+    """Laddered lengths + one anchor just above the nominal end (a window that opens anywhere below the end is entered)."""
+    if tier == "quick":
+        top = int(hi_q * (1 + 0.1 * _hu("top", tag)))
+        return sorted(set(gen.size_ladder(lo, hi_q, count_q, "c09:" + tag)) | {top})
+    top = int(hi_t * (1 + 0.05 * _hu("top:t", tag)))
+    return sorted(set(gen.size_ladder(lo, hi_t, count_t, "c09:t:" + tag, mined_limit=16)) | set(gen.ladder(lo, hi_q, count_q, "c09:" + tag)) | {top})
+
+
+def _mid_cases(tier):
+    cases = []
+    dts = [0.001, 0.002, 0.004, 0.005, 0.01, 0.02, 0.05]
+    pads = gen.ladder(600, 100000, 14 if tier == "quick" else 40, "c09:pad")
+    for i, n in enumerate(_mid_sizes(tier, "n", 16, 40)):
+        how = _pick(MID_CONTAINERS, "how", i)
+        if how == "list" and n > 60000:
+            how = "view"
+        c = {"n": int(n), "seed": _sd("mid", i), "kind": _pick(MID_KINDS, "kind", i), "as": how,
+             "dt": _pick(dts, "dt", i) if _hu("dtk", i) < 0.6 else round(10 ** (-4 + 3.5 * _hu("dtv", i)), 7),
+             "dtv": _pick(DT_FORMS, "dtf", i), "pad": int(pads[int(_hu("padi", i) * len(pads))]), "key": _sd("key", i), "cost": n}
+        if _hu("sc", i) < 0.5:
+            c["k2"] = int(_pick([-33, -9, -3, -1, 1, 2, 5, 17, 38], "k2", i))
+            c["neg"] = bool(_hu("neg", i) < 0.5)
+        else:
+            c["alpha"] = float((-1 if _hu("as", i) < 0.5 else 1) * 10 ** (-6 + 12 * _hu("al", i)))
+        cases.append(c)
+    return cases
+
+
+def _mid_enum(tier, shard, nshards):
+    return _deal(_mid_cases(tier), shard, nshards)
+
+
+@enum_clause(CLAUSES, "mid-range", _mid_enum,
+             rule="record lengths gen.size_ladder(2000, 300000, 16) + one just above 300000 (thorough: to 2 000 000, 40 + 16 rungs; plus lengths "
+                  "aimed at the integer literals of the tree under test); noise x envelope / sines / walk / modulated noise with a non-zero "
+                  "mean and no zero tail; container, dt and its form, scale factor, pad length (ladder 600..100000) and read order chosen by hash",
+             oracle="as final-value + laws over the whole record: every measure's length, exact monotonicity over the WHOLE series and final value "
+                    "against the long-double panel sums (bound eps*(n+8)*sum|terms|), the array-level Arias helper, the velocity anchor; sign "
+                    "reversal / scaling / zero padding on the final values",
+             exhaustive_note="the laddered lengths of the run's VERIF_SEED", quick_shards=4)
+def mid_range(case, ctx):
+    n = int(case["n"])
+    a0 = _mid_record(n, case["seed"], case["kind"])
+    arg = _mid_container(a0, case["as"])
+    a = np.array(arg, dtype=float)
+    dt_arg, dt = _dt(case)
+    ctx.cls("kind=" + case["kind"], "as=" + case["as"], "dt=" + case["dtv"], "n>50000" if n > 50000 else "n<=50000")
+    ctx.nt(True)
+    asig = ctx.lib(eqsig.AccSignal, arg, dt_arg)
+    _final_checks(ctx, asig, a, dt, " (n=%d)" % n, key=int(case["key"]), raw_arg=arg, raw_dt=dt_arg)
+    _law_checks(ctx, case, arg, a, dt_arg, dt)
+
+
+# ---- standardised CAV: record length = rate x seconds
+
+
+def _mid_cavdp_cases(tier):
+    cases = []
+    sizes = _mid_sizes(tier, "cavdp", 12, 30, hi_t=1500000)
+    for i, n in enumerate(sizes):
+        # the rate: log-uniform, at most 5000 complete windows (the library walks over the windows in Python), at least 2
+        lo = max(1, -(-n // 5000))
+        hi = max(lo, min(10000, (n - 1) // 2))
+        ns = int(math.exp(math.log(lo) + (math.log(hi + 1) - math.log(lo)) * _hu("ns", i)))
+        if _hu("nsc", i) < 0.35:
+            near = [r for r in COMMON_RATES if lo <= r <= hi]
+            if near:
+                ns = _pick(near, "nsp", i)
+        ns = min(hi, max(lo, ns))
+        k = (n - 1) // ns
+        mode = _pick(["exact", "rand", "rand", "minus1"], "mode", i)
+        m = k * ns + 1 if mode == "exact" else ((k + 1) * ns if mode == "minus1" else n)
+        cases.append({"n": int(m), "ns": int(ns), "seed": _sd("cavdp", i), "kind": _pick(MID_KINDS, "ck", i),
+                      "level": round(10 ** (-0.5 + 1.3 * _hu("lev", i)), 4), "dtv": _pick(["py", "np64", "0d64"], "cdt", i),
+                      "pad": int(1 + _hu("cp", i) * 3 * ns), "cost": m + 30 * k})
+    return cases
+
+
+def _mid_cavdp_enum(tier, shard, nshards):
+    return _deal(_mid_cavdp_cases(tier), shard, nshards)
+
+
+@enum_clause(CLAUSES, "mid-range-cavdp", _mid_cavdp_enum,
+             rule="standardised CAV: npts = rate x seconds from gen.size_ladder(2000, 300000, 12) (thorough 1 500 000, 30 + 12 rungs), rate "
+                  "log-uniform 1..10000 Hz or a common rate with 2..5000 complete windows (tens to thousands of seconds), length exact / random / "
+                  "one short of a window; noise-like data whose one-second peaks scatter around 0.025 g (typical peak 0.3..6 x the gate level)",
+             oracle="as cav-dp (vectorised long-double windows): bracket [sum(full - last panel), sum full] with rel 1e-9 + 8 eps n, zero when no "
+                    "window qualifies, length, monotone over the whole series, <= trapz|a|/9.81; sign reversal; padding law for whole seconds",
+             exhaustive_note="the laddered lengths of the run's VERIF_SEED", quick_shards=4)
+def mid_range_cavdp(case, ctx):
+    n, ns = int(case["n"]), int(case["ns"])
+    dt = 1.0 / ns
+    dt_arg, _ = _dt({"dt": dt, "dtv": case["dtv"]})
+    a = _mid_record(n, case["seed"], case["kind"])
+    # one-second peaks on both sides of the gate: normalise the typical one-second peak to `level` x 0.025 g
+    nwin = (n - 1) // ns
+    pk = np.abs(a[:nwin * ns]).reshape(nwin, ns).max(axis=1)
+    a = a * (case["level"] * GATE * G / float(np.median(pk)))
+    _lo, _hi, states = _cavdp_bracket(a, ns, dt)
+    yes, no = states.count(True), states.count(False)
+    ctx.cls("kind=" + case["kind"], "dt=" + case["dtv"], "windows>300" if nwin > 300 else "windows<=300", "ns>1000" if ns > 1000 else "ns<=1000",
+            "mixed-gates" if yes and no else ("all-qualify" if yes else "none-qualify"))
+    if None in states:
+        ctx.amb()
+    ctx.nt(bool(yes and no))
+    s, _ = _cavdp_checks(ctx, a, a, ns, dt_arg, dt)
+    s2 = np.asarray(ctx.lib(im.calc_cav_dp, ctx.lib(eqsig.AccSignal, -a, dt_arg)))
+    ctx.check(s2.shape == s.shape and s2[-1] == s[-1], "standardised CAV of the sign-reversed record: %r vs %r" % (s2[-1], s[-1]))
+    if (n - 1) % ns == 0:
+        _cavdp_padding_law(ctx, a, ns, dt_arg, dt, int(case["pad"]), nwin)
+
+
+# ---- array-level Arias with a 2-D argument: rows x samples
+
+
+def _mid_rows_cases(tier):
+    quick = tier == "quick"
+    pp = gen.product_pairs(1e5, 1e7 if quick else 3e7, 8 if quick else 20, (2, 5000), (2000, 300000 if quick else 2000000), "c09:rows")
+    cases = []
+    for i, (rows, n) in enumerate(pp):
+        cases.append({"rows": int(rows), "n": int(n), "seed": _sd("rows", i), "dt": _pick([0.002, 0.005, 0.01, 0.02], "rdt", i),
+                      "layout": _pick(["c", "c", "f", "list-of-rows"], "lay", i), "cost": rows * n})
+    # a "count" ladder of rows with short records
+    for i, rows in enumerate(gen.size_ladder(2, 5000, 6 if quick else 14, "c09:rowcount", mined_limit=3)):
+        cases.append({"rows": int(rows), "n": int(2000 + 3000 * _hu("rn", i)), "seed": _sd("rowc", i), "dt": 0.01,
+                      "layout": _pick(["c", "f"], "layc", i), "cost": rows * 3000})
+    return cases
+
+
+def _mid_rows_enum(tier, shard, nshards):
+    return _deal(_mid_rows_cases(tier), shard, nshards)
+
+
+@enum_clause(CLAUSES, "mid-range-rows", _mid_rows_enum,
+             rule="_raw_calc_arias_intensity with a 2-D argument (rows = series, the call of cumulative_response_spectra): rows x samples from "
+                  "gen.product_pairs(1e5, 1e7, 8) (thorough 3e7, 20) with 2..5000 rows, 2000..300000 samples, plus a ladder of row counts with "
+                  "short records; C / Fortran layout or a list of rows; every row a different scaled / shifted noise record",
+             oracle="shape == argument's shape, every row non-decreasing (exact, all rows), final value of EVERY row against the long-double panel "
+                    "sum of that row (vectorised over rows; bound eps*(n+8)*value)",
+             exhaustive_note="the laddered products of the run's VERIF_SEED", quick_shards=4)
+def mid_range_rows(case, ctx):
+    raw = getattr(im, "_raw_calc_arias_intensity", None)
+    if raw is None:
+        ctx.cls("no-private-helper")
+        return
+    rows, n, dt = int(case["rows"]), int(case["n"]), case["dt"]
+    rs = np.random.RandomState(case["seed"])
+    base = rs.standard_normal(n + rows)
+    # row r: a window of one noise stream, scaled and shifted differently (distinct rows, non-zero mean, no zero tail)
+    x = np.lib.stride_tricks.sliding_window_view(base, n)[:rows] * (0.2 + rs.uniform(0.0, 3.0, size=rows))[:, None]
+    x = x + rs.uniform(-0.05, 0.05, size=rows)[:, None]
+    if case["layout"] == "f":
+        arg = np.asfortranarray(x)
+    elif case["layout"] == "list-of-rows" and rows * n <= 2000000:
+        arg = [row for row in x]
+    else:
+        arg = x
+    ctx.cls("layout=" + case["layout"], "rows>128" if rows > 128 else "rows<=128")
+    ctx.nt(True)
+    out = np.asarray(ctx.lib(raw, arg, dt))
+    ctx.shape(out, (rows, n), "_raw_calc_arias_intensity of a %d x %d array" % (rows, n))
+    ctx.finite(out, "_raw_calc_arias_intensity of a 2-D array")
+    bad = np.argwhere(np.diff(out, axis=1) < 0)
+    if len(bad):
+        r, j = bad[0]
+        ctx.fail("row %d of the 2-D Arias series decreases at %d: %r -> %r" % (r, j + 1, out[r, j], out[r, j + 1]))
+    ctx.check(bool(np.all(out[:, 0] >= 0)), "a row of the 2-D Arias series starts below zero")
+    c = LD(math.pi) / (2 * LD(G))
+    want = np.empty(rows, dtype=LD)
+    step = max(1, 4000000 // n)
+    for r0 in range(0, rows, step):     # long double, a few rows at a time
+        y = x[r0:r0 + step].astype(LD) ** 2
+        want[r0:r0 + step] = c * LD(dt) * ((y[:, 1:] + y[:, :-1]) / 2).sum(axis=1)
+    ctx.close(out[:, -1], want, EPS * (n + 8) * np.asarray(want, dtype=float), "final Arias value of every row vs long-double panel sum")
+
+
+# ---- operation histories on the signal object at mid-range lengths
+
+
+def _mid_hist_cases(tier):
+    quick = tier == "quick"
+    cases = []
+    for i, n in enumerate(_mid_sizes(tier, "hist", 8, 20, hi_t=1000000)):
+        cases.append({"n": int(n), "seed": _sd("hist", i), "kind": _pick(MID_KINDS, "hk", i), "dt": _pick([0.002, 0.005, 0.01, 0.02], "hdt", i),
+                      "dtv": _pick(DT_FORMS, "hdf", i), "ops": _sd("hops", i), "count": 3 if quick else 4, "cost": n})
+    return cases
+
+
+def _mid_hist_enum(tier, shard, nshards):
+    return _deal(_mid_hist_cases(tier), shard, nshards)
+
+
+@enum_clause(CLAUSES, "mid-range-history", _mid_hist_enum,
+             rule="AccSignal of gen.size_ladder(2000, 300000, 8) samples (thorough 1 000 000, 20 + 8): read the velocity and every measure, apply 3 "
+                  "(thorough 4) in-place operations chosen by hash (value replacement with the same / another length, add constant / series / "
+                  "signal, remove average / polynomial, Butterworth filter, zero residual velocity / displacement / both, rebasing, regenerating "
+                  "the velocity with either rule; the Python-loop operations only below 30000 samples), re-read after each",
+             oracle="as final-value on the record the object holds after each operation (whole series monotone, final values, velocity anchor)",
+             exhaustive_note="the laddered lengths of the run's VERIF_SEED", quick_shards=4)
+def mid_range_history(case, ctx):
+    n = int(case["n"])
+    a = _mid_record(n, case["seed"], case["kind"])
+    dt_arg, dt = _dt(case)
+    ctx.cls("kind=" + case["kind"], "dt=" + case["dtv"])
+    ctx.nt(True)
+    asig = ctx.lib(eqsig.AccSignal, a.copy(), dt_arg)
+    _final_checks(ctx, asig, a, dt, " (n=%d)" % n, key=int(case["ops"]))
+    _history(ctx, asig, a, dt, int(case["ops"]), int(case["count"]), allow_slow=n <= 30000)
